@@ -45,6 +45,33 @@ def generate(rng, tier):
                 pts[ax] = [a, b, c]
                 blk = build(scale, (0, 0, 0, 0), [(2000, pts[0], pts[1], pts[2], [])])
                 out.append((f"stats {hx(skyb(blk))} B", True))
+    # gently curved segments far from the origin (offset or travel some 10^4 times the curvature) and long almost-straight
+    # dashes: the curvature is small against the largest coefficient but it is not rounding noise - the interior extremum
+    # and the end points are what they are
+    for i in range(120 if tier == "thorough" else 30):
+        scale = rng.choice([1, 1, 3, 10])
+        base = rng.choice([30000, -30000, 20000, 12000, -15000])
+        kind = i % 3
+        if kind == 0:       # bulge of 1..3 units
+            d = rng.choice([1, 2, 3])
+            pts = [base + d, base + d, base]
+            st = base
+        elif kind == 1:     # final segment creeping a few units further than its start
+            pts = [base, base + rng.choice([1, 2]), base + rng.choice([3, 4])]
+            st = base
+        else:               # long dash with a slight deceleration
+            st = 0
+            step = rng.choice([10000, 8000])
+            pts = [step, 2 * step - rng.choice([1, 2]), 3 * step - rng.choice([3, 5])]
+        for ax in range(3):
+            start = [rng.randint(-50, 50), rng.randint(-50, 50), rng.randint(0, 50), 0]
+            start[ax] = st
+            axes = [[], [], []]
+            axes[ax] = pts
+            other = (ax + 1) % 3
+            axes[other] = [start[other] + 100]
+            blk = build(scale, tuple(start), [(rng.choice([2000, 5000]), axes[0], axes[1], axes[2], [])])
+            out.append((f"stats {hx(skyb(blk, rng))} B", True))
     # histories: several trajectories of the same encoded length, loaded one after the other from ONE caller buffer that is
     # overwritten in place and through a descriptor after the previous one was destroyed; every box must be that of its own bytes
     for i in range(60 if tier == "thorough" else 12):
